@@ -13,6 +13,18 @@ CLAIMED = {
          "bound: matrices of 2..4 objects (exhaustive split over sizes and survivor sets); grouping at commit (floating point + tree insertion) outside; object lookup stubbed by a symbolic exists-table", "§5 C13"),
  "C15": ("one register / restrict / rank / query step from ANY table satisfying the partition invariant (inductive step covers histories of any length); info accumulation on one kind; growth of the table with the real sizing",
          "bound: <= 2 (quick) / 3 (thorough) kinds over a 6..8 PU universe, 1-word cpusets, infos from a 3-pair pool; in register_public/restrict the ranking call is cut and decided separately from an arbitrary valid table; qsort/getenv stubs", "§5 C15"),
+ "C02": ("one modifying call from a well-formed state per entry point, symbolic arguments: hwloc_topology_allow (all flag words, NULL/any 8-bit sets, hook results), the infos family against a reference semantics on an ARBITRARY table, Misc insertion, Group allocation and every refusal path of Group insertion; asserted: documented result, the C01 clauses the call can affect, gp_index/userdata preserved, failing calls leave observables unchanged",
+         "bound: seeds S1/S4 built by the real core (4 PUs, 2 packages, 2 NUMA nodes), info tables <= 3 pairs over a 3-string pool; successful Group insertion, restrict on inner objects and distance grouping (tree surgery under symbolic control) are outside; histories are covered only through the one-step argument on the asserted invariants", "§5 C02"),
+ "C08": ("hwloc_topology_restrict front end (flag validation, empty / non-intersecting / covering sets, EINVAL leaves everything unchanged) with symbolic set and flags, and the removal of ONE leaf (a PU, a PU carrying a Misc child, a NUMA node, a CPU-less NUMA node) through the real restrict_object_by_cpuset / unlink / reconnect code, by cpuset and by nodeset",
+         "bound: seeds S1/S2 (<= 13 objects) built by the real core; sets over 8 bits; removal of inner objects and cascades (REMOVE_CPULESS/MEMLESS chains) beyond one leaf are outside", "§5 C08"),
+ "C10": ("every cpubind/membind set entry point and get_cpubind on a topology whose cpuset/nodeset are strict subsets of the complete sets: all flag words, policies, sets (8 bits +/- infinite tail), hook presence and hook results symbolic; dummy hooks on a foreign topology; the Linux thread hooks (set_tid/get_tid, kernel mask size probing) against a kernel model: what reaches sched_setaffinity is exactly the set, what get returns is exactly the kernel mask whatever the output bitmap held",
+         "bound: seed S4 (real core); kernel model of 128 CPUs, sets of <= 2 CPUs (quick) / 3..5 (thorough) for the set->get round trip, any 128-bit mask for get; the live round trip on the running system, process-wide binding through /proc and the memory-binding syscalls cannot be encoded and are outside", "§5 C10"),
+ "C14": ("register / set_value / get_value / get_initiators / get_targets / best_target / best_initiator / local NUMA nodes / refresh / dup, each as one query from an ARBITRARY valid attribute table (symbolic flags, values, initiator kinds) built directly in its representation",
+         "bound: <= 3 targets x <= 2 initiators per attribute, 1-word cpusets, NUMA objects are fake records resolved through a symbolic exists-table; CBMC 6.11 mis-evaluates one union read (location.object->gp_index): that single identity is checked through get_initiators instead (DESIGN §3)", "§5 C14"),
+ "C16": ("hwloc_topology_diff_apply on hand-built lists (scripted targets, symbolic entry type, strings, 64-bit values, flags): -N, exact rollback, apply+REVERSE identity; hwloc_topology_diff_build on pairs (A, B = edited copy): 0/1 + TOO_COMPLEX exactly for non-representable edits, well-formed entries, apply makes A indistinguishable from B incl. derived total_memory, second build empty, REVERSE restores",
+         "bound: hand-linked 9-object topology (accepted by the real hwloc_topology_check natively); lists of exactly 3 entries over 6 target scripts; edits = any subset of {name, info, topology info, local memory (any 64-bit delta)}, single edits in quick, all 16 subsets in thorough; diff XML export/import is outside (C05 territory)", "§5 C16"),
+ "C20": ("the location evaluator shared by hwloc-calc/hwloc-bind/hwloc-info (utils/hwloc/hwloc-calc.h) against brute-force set algebra over the level tables: T:i, T:a-b, T:a-, T:a:n, T:all|odd|even, pack:i.pu:j, pack:i.numa:all, all/root, with and without ~ x ^ operators, logical and physical indexing, arbitrary accumulator sets; hwloc_calc_parse_range on every string of L arbitrary bytes",
+         "bound: hand-linked topology (2 packages, PUs 0,1,2,5, 2 NUMA nodes); digits 0..5 (quick: {0,1,3,5} for two-digit templates) enumerated as concretely built texts, everything else symbolic; L = 4/6 bytes; process-level behaviour of the tools (exit status, option parsing, output formats, lstopo, hwloc-distrib, diff|patch) is outside", "§5 C20"),
 }
 NA_PENDING = "check not registered yet in this revision (harness under construction; see DESIGN.md §9 status)"
 NA = {}
